@@ -58,6 +58,7 @@ def _run(repo, rel, cls, helpers_rel, op, nargs, size, arg_sizes=None):
     if helpers_rel:
         hm = repo.mod(helpers_rel)
         funcs = dict((q, f) for q, f in hm.funcs.items() if "." not in q)
+    funcs.update((q, f) for q, f in m.funcs.items() if "." not in q)          # the translator module's own helpers
     it = _LeafInterp(functions=funcs, methods=meths, consts={})
     selfobj = {"__self__": True}
     selfobj.update(_class_consts(m, cls))
@@ -305,6 +306,7 @@ def handler_term(repo, lang, handler, expr, self_extra=None):
     if hrel:
         hm = repo.mod(hrel)
         funcs = dict((q, f) for q, f in hm.funcs.items() if "." not in q)
+    funcs.update((q, f) for q, f in m.funcs.items() if "." not in q)
     it = _StructInterp(functions=funcs, methods=meths, consts={})
     it.sym_truthy = (lang == "smt2")
     selfobj = {"__self__": True}
@@ -323,6 +325,7 @@ def mem_term(repo, lang, endianness, size, addr_size=32):
     if hrel:
         hm = repo.mod(hrel)
         funcs = dict((q, f) for q, f in hm.funcs.items() if "." not in q)
+    funcs.update((q, f) for q, f in m.funcs.items() if "." not in q)
     it = _StructInterp(functions=funcs, methods=meths, consts={})
     it.sym_truthy = (lang == "smt2")
     selfobj = {"__self__": True, "endianness": endianness, "mems": {}, "name": "M"}
